@@ -49,6 +49,8 @@ type Node struct {
 	WasInlined   bool
 	Detached     bool
 	Former       *Node // container it was detached from (C11)
+	Gen          int   // changes whenever the designated handle object of this container changes
+	HandleParentGen int // Gen of the parent at the time this container's handle was obtained
 	SeenInline   bool
 	SeenStandalone bool
 }
